@@ -8,12 +8,3 @@ ENGINES = [
 _PENDING = "check not built yet in this session (planned, see DESIGN.md section 8); not a statement that the technique cannot apply"
 NOT_APPLICABLE = {("C%02d" % i): _PENDING for i in range(1, 21)}
 
-CLAIMS = {
-    "C18": {
-        "engine": "rapid-direct",
-        "technique": "property-based testing (rapid) against a math/big oracle + exhaustive sweep of low/high ranges",
-        "text": "Generated uint64 totals (uniform, boundary-biased, all residues at all magnitudes) and an exhaustive sweep of [1,N] and [2^64-N,2^64-1]; every clause of the statement is recomputed in math/big. Exploration, not proof: the function is a pure 64-bit computation, so sampled + swept coverage is the appropriate level for this family.",
-        "design_ref": "DESIGN.md §4 C18",
-        "note": "Trusts math/big; n=0 is outside the domain (documented panic).",
-    },
-}
